@@ -176,6 +176,16 @@ CHECKS = {
         "Even windows: either centre accepted. Integer-typed kernel outputs compared with floor(mean). Values seeded; box bounds as stated.",
         "DESIGN.md section 3 C14",
     ),
+    "C15": (
+        "exploration",
+        "complete product of estimators x axes x shapes x data classes x affine maps with lane-by-lane and equivariance oracles",
+        "All 10 scale choices x 3 location choices x axis in {None,0,1} x 3 shapes x 5 data classes (normal, 3-valued ties, constant, heavy "
+        "outlier, constant lanes) x 18 affine maps: the per-axis scale and z-scores must equal the 1-D estimator applied to each lane (or the "
+        "flattened data) and broadcast against the input; scale(a x+b) = |a| scale(x) and z(a x+b) = sign(a) z(x) on every lane with a safely "
+        "non-zero scale; every z-score finite (zero scale falls back to one). FilterbankBlock.normalise and TimeSeries.normalise included.",
+        "Equivariance only where the scale estimate exceeds 1e-6 of the lane spread; offsets tied to |a|; tolerances 1e-9 (scale) / 1e-4 (z).",
+        "DESIGN.md section 3 C15",
+    ),
 }
 
 ENGINES = [
